@@ -1,6 +1,6 @@
-"""C05 termination once, right reason, final."""
+"""C05 termination once, right reason, final (processes and meta-processes)."""
 from checks import _sched
 
 
 def run(c):
-    _sched.run(c, "theories/Properties/C05.v", ["spec_c05", "spec_c01"])
+    _sched.run(c, "theories/Properties/C05.v", ["spec_c05", "spec_c01"], meta_spec=["spec_meta_c05", "spec_meta_c01"])
